@@ -40,6 +40,9 @@ fn main() {
         }
         libc::close(0);
         libc::close(1);
+        // tell the harness that our copies are gone (it waits for this byte before it starts)
+        let ack = [b'c'];
+        let _ = libc::write(sock.as_raw_fd(), ack.as_ptr().cast(), 1);
     }
     drop(sock);
     loop {
